@@ -328,6 +328,22 @@ func (p *Prog) resolveRole(role string) (*ssa.Function, error) {
 		var c []*ssa.Function
 		for _, f := range arg {
 			if len(p.RCalls(f, GAddOverwrite)) > 0 {
+				// the role is the function that also hands back the converter list: when registering the supplied values
+				// was made a step of it, lift the step to the function that drives it
+				for i := 0; i < 3; i++ {
+					hasConvs := false
+					rs := f.Signature.Results()
+					for j := 0; j < rs.Len(); j++ {
+						if TypeStr(rs.At(j).Type()) == "[]*Func" {
+							hasConvs = true
+						}
+					}
+					sites := p.Callers(f)
+					if hasConvs || len(sites) != 1 || !p.InTarget(sites[0].Parent()) {
+						break
+					}
+					f = Outer(sites[0].Parent())
+				}
 				c = append(c, f)
 			}
 		}
